@@ -50,6 +50,8 @@ where
         to: usize,
     ) -> Self {
         let reader = region.create_reader();
+        #[cfg(anydb_verif)]
+        rawdb::verif_tap::pause("raw-mmap-source:after-reader");
         let from = from.min(stored_len);
         let to = to.min(stored_len);
         let slice = reader.prefixed(HEADER_OFFSET);
